@@ -9,12 +9,21 @@ RULE = ("random value curves of 1-40 (thorough 1-60) points over few levels (ris
         "tear sheet. A case is distinct by the SHA-1 of its op lines and non-trivial when the implementation's observation block changes at least once. "
         "Input-domain family d<k> (N/10 further cases, separately seeded): long curves (100-400 points, thorough up to 1 500); asset balances whose `free` differs from `total` "
         "(half, 0, total+1, -total; 4th token of `asset` / `pt`); positions whose time_enter differs from time_exit (4th token of `pos`); extreme-but-exact magnitudes (unit 1e-8 / 1e-6 / "
-        "1e9 / 1e10, a 1e-8 or 0 trough under a 1e10 peak); `gen` / `gen!` on an empty history; timestamps before the epoch (negative, also decreasing) and around 1.7e12 ms")
+        "1e9 / 1e10, a 1e-8 or 0 trough under a 1e10 peak); `gen` / `gen!` on an empty history; timestamps before the epoch (negative, also decreasing) and around 1.7e12 ms. "
+        "Configuration-shape family s<k> (N/10 further cases, separately seeded; op `sum`): ONE TradingSummaryGenerator initialised (TradingSummaryGenerator::init) from a real EngineState "
+        "built by EngineState::builder over 1-4 spot instruments drawn independently over 1-3 exchanges (label order != index order) and their 2-8 assets, with initial balances for none / some / all "
+        "assets (the builder feeds the balance at time_engine_start through update_from_balance into a DEFAULT asset sheet; assets without one start from default() and see their first value as a "
+        "balance snapshot); every asset / instrument with its own curve (0-12, thorough 0-25 points), updates interleaved across keys and addressed by index (AssetIndex / InstrumentIndex) or by name "
+        "(ExchangeAsset / InstrumentNameInternal); generate of the whole summary on a clone / itself with Daily / Annual252 / Annual365; time_engine_start before, at and after the first points; "
+        "after every op the block of EVERY key is read back by name (isolation)")
 ASSUMPTIONS = [
     "positive running maxima (first value > 0): the spec driver is silent on other curves; the refinement theorems themselves hold for every curve",
     "Decimal arithmetic is exact rational arithmetic: depths ((peak-v)/peak) and mean depths are compared to 1e-18; overflow/rounding of rust_decimal not modelled",
     "mean duration is an i64 millisecond count updated with truncating division: it equals the exact average only up to (n-1)/2 ms (theorem mean_duration_near_average); the spec driver prints that integer incremental average",
     "theorems about TearSheet*Generator::generate concern the first generate after an update history (backtest()/trading_summary_generator clone the generator); generate mutates the mean/max generators, so a repeated call on the same generator counts the in-progress drawdown again (modelled and checked by correspondence, recorded as an `example`, not part of the spec)",
+    "`sum` mode: each key of a TradingSummaryGenerator is an independent copy of the single-sheet model / spec (the drivers route an update to its key and print every key); the summary's own "
+    "fields (time_engine_now, risk_free_return, the non-drawdown statistics: C16/C17) are not observed; balance snapshots go to the summary generator directly, not through AssetState::update_from_balance "
+    "(whose time filter is not part of this property)",
     "the instrument tear sheet's returns data set (PnLReturns.total/losses, C16/C17) is kept numerically trivial by the harness (entry notional 1e27): with unit notional rust_decimal's Decimal::sqrt can panic inside Dispersion::update before the drawdown code runs",
 ]
 SOURCE_FILES = ["barter/src/statistic/metric/drawdown/mod.rs", "barter/src/statistic/metric/drawdown/max.rs",
